@@ -371,7 +371,7 @@ impl<C: KeyColl> KeyExec<C> {
             if let Err(e) = snap::check_slots(&s) {
                 return Err(Fail::new("slots", format!("{} | {}", e, Self::describe(&s))));
             }
-            let n = s.slots.len() - 1 - s.free.len();
+            let n = s.slots.len().saturating_sub(1 + s.free.len());
             if n > self.peak_phys {
                 self.peak_phys = n;
             }
@@ -383,8 +383,8 @@ impl<C: KeyColl> KeyExec<C> {
                     format!("arena has {} slots, peak population {} (bound 8*(peak+1)+2*max(hint,8)+64 = {})", s.slots.len(), self.peak_phys, bound),
                 ));
             }
-            if was_clear && (s.root != i_tree::EMPTY_REF || s.free.len() != s.slots.len() - 1) {
-                return Err(Fail::new("slots-clear", format!("after clear: root {} and {} of {} slots free", s.root as i32, s.free.len(), s.slots.len() - 1)));
+            if was_clear && (s.root != i_tree::EMPTY_REF || s.free.len() != s.slots.len().saturating_sub(1)) {
+                return Err(Fail::new("slots-clear", format!("after clear: root {} and {} of {} slots free", s.root as i32, s.free.len(), s.slots.len().saturating_sub(1))));
             }
         }
         Ok(())
@@ -492,7 +492,7 @@ impl<C: KeyColl> KeyExec<C> {
 
     fn phys_after(&self, before: Option<usize>, rep: &mut Report) {
         if let (Some(b), Some(s)) = (before, self.sut.as_ref().and_then(|s| s.snap())) {
-            let n = s.slots.len() - 1 - s.free.len();
+            let n = s.slots.len().saturating_sub(1 + s.free.len());
             if n < b {
                 rep.counters.inc("q_that_physically_removed_entries");
                 rep.counters.add("entries_lazily_removed", (b - n) as u64);
